@@ -97,7 +97,7 @@ def run(tier, seed, replay=None):
         cfg1 = parse_config(BASE_CFG + rule + "\n")
         d1 = an.analyze(text, cfg1, Path(cwd))
         v1 = d1.action
-        if v1 == "ask" and d1.reason.startswith("parse error"):
+        if v1 == "ask" and lib.parser_rejects(text):
             # the vendored parser rejects some valid programs (e.g. ";;&" before esac): the whole line is then
             # asked with or without the rule - nothing is approved, no rule is consulted, nothing to mask
             out.count("skipped", "parser-rejected")
